@@ -55,6 +55,38 @@ def find_path(facts):
     return None
 
 
+def atomicity(res, pid):
+    """used by the system-level checks: their model treats one work item as one atomic step on the shared state; that is
+    exactly the lock discipline of C16, re-established on the current tree by the translator + verified checker"""
+    ok, out = translator_build()
+    if not ok:
+        res.obligation("atomicity of work items (lock discipline of the current tree): translator build", False)
+        res.violation({"property": pid, "kind": "check-error", "theorem_or_correspondence": "translator build", "detail": out[-2000:]}, nofail=True)
+        return False
+    with vlib.Lock("atom.lock"):
+        ok, out, dt = run_translator()
+        rc2, o2 = 1, out
+        if ok:
+            shutil.copy(os.path.join(vlib.COQ, "Properties", "C16_current.v.tmpl"), os.path.join(GEN, "C16_current.v"))
+            with vlib.Lock("coq.lock"):
+                rc1, o1, _ = vlib.sh("timeout 600 coqc -Q .. NIPAM -R . Gen Facts_lock.v 2>&1", cwd=GEN, timeout=700, check=False)
+                rc2, o2, _ = vlib.sh("timeout 600 coqc -Q .. NIPAM -R . Gen C16_current.v 2>&1", cwd=GEN, timeout=700, check=False) if rc1 == 0 else (1, o1, 0)
+        facts = json.load(open(os.path.join(GEN, "facts.json"))) if ok else None
+    res.obligation("atomicity of work items: every access to the shared state happens under the allocator lock on the current tree "
+                   "(translator facts + LockCheck.check_sound; the model's step = one critical section)", rc2 == 0)
+    if rc2 != 0:
+        found = find_path(facts) if facts else None
+        rep = {"property": pid, "kind": "correspondence-break",
+               "theorem_or_correspondence": "atomicity assumption of the model (one work item = one atomic step): gen/C16_current.v no longer holds; "
+                                            "the sequential correspondence check cannot exhibit interleavings inside a work item",
+               "detail": (o2 or "")[-1500:]}
+        if found:
+            rep.update({"violation": found[0], "call_path": found[1], "at": found[2]})
+        res.violation(rep, nofail=True)
+        return False
+    return True
+
+
 def run(res, tier, seed):
     vlib.standard_proof_step(res, "C16")
     ok, out = translator_build()
